@@ -9,6 +9,12 @@ CHECKS = {
  "C06": dict(
    text="Theorems C06_op / C06_sequence / C06_flushed (closed under the global context): for each of the 18 write operations, every argument in the operand type's range and every buffer fill level, the model of CdnsEncoder extends the output stream by exactly the RFC 8949 preferred encoding (specified independently with div/mod only) and returns its length; by induction for every call sequence. Tie: correspondence run (same call sequences through the real class under ASan/UBSan and through the extracted model, byte- and return-exact) aimed at the proof's case splits (head-size boundaries x fill levels 2048-a) + independent Python reference encoder as oracle.",
    ref="DESIGN.md 3.6", note="The output writer below flush_buffer() is covered by C13-C16."),
+ "C05": dict(
+   text="Theorems C05_refine (the physical decoder - a window of ANY size B>0 refilled from the stream, any fill level, any stream state - returns exactly what the logical byte list determines, by induction over all decoder programs), C05_init, C05_exhausted (all 11 public read operations report End once the logical input is empty: empty input, multiples of the window, unreadable stream), C05_prefix (universal prefix lemma: on a prefix of the input EVERY decoder program returns its full-input result or End, nothing else), C05_suffix. Tie: correspondence on inputs of 0/1/2/65534..65536/131069..131071/196605 bytes x istringstream/ifstream/unopened x every operation, and truncation sweeps of 1-2-window item streams at window multiples, item ends and random cuts; ground-truth oracle from the generator.",
+   ref="DESIGN.md 3.5", note="The block-level corollary (a truncated C-DNS file yields exactly its complete blocks) is checked by the file-level truncation sweep of C01's reader model when claimed; here it follows from C05_prefix for any reader written in the decoder monad."),
+ "C07": dict(
+   text="Theorems C07_read_unsigned/_negative/_integer/_bool/_string_definite/_string_chunked/_container_start_definite/_indefinite/_read_break/_skip over an independent inductive RFC 8949 grammar (every head width incl. non-preferred, chunked strings, nested definite/indefinite arrays and maps, tags with content, simple values, floats): for every well-formed encoding x and every continuation rest, the read operation on ser x ++ rest returns the RFC value and leaves exactly rest; skip_item by nested induction over the grammar with a fuel bound equal to the encoding length. C07_any_position: position independence w.r.t. the window for any buffer size. Tie: correspondence with grammar-driven items at offsets 65535k-16..+2 and straddling, istringstream and ifstream, nesting depth to 30000 (2*10^6 thorough) under a 1 MiB stack.",
+   ref="DESIGN.md 3.7", note="Negative integers below -2^63 (not representable in the int64 return type) are outside the theorems; see C08/F15."),
  "C17": dict(
    text="Theorems C17_offset_exact / C17_add_inverse / C17_compare_lt / C17_compare_le / C17_refuse / C17_rate0 / C17_no_ub / C17_block / C17_block_offsets over a model of Timestamp in Z with the code's int64 arithmetic made explicit (an overflowing signed operation is the distinguished outcome TUB): for every tick rate 1..10^9, all instants below 2^63 ticks and all int64 offsets (INT64_MIN included). C17_block is an invariant by induction over every add history of a block (timed/untimed records in any order). Tie: correspondence (same commands through the real Timestamp / CdnsBlock classes under UBSan and through the extracted model) + Python big-integer oracle.",
    ref="DESIGN.md 3.17", note="Hypothesis of the theorems: ticks_per_second <= 10^9 and instants < 2^63 ticks (the 'representable range' of the property)."),
